@@ -337,6 +337,48 @@ fn special_programs() -> Vec<Program> {
     let mut v = Vec::new();
     // label last in the program
     v.push(Program { data: vec![], code: vec![b::label("start"), stc(), b::jmp("jmp", "e"), clc(), b::label("e")] });
+    // recursion with the call in tail position (the return address is the implied ret itself), and with
+    // code after the call; several activations
+    for tail in [true, false] {
+        for depth in [1i32, 2, 3, 5] {
+            let mut body = vec![Item::Ins(Instr::Un(UnOp::Inc, Opnd::R16(R_DX))), Item::Ins(Instr::Un(UnOp::Dec, Opnd::R16(R_CX))), b::jmp("jcxz", "done_"), b::call("rec")];
+            if !tail {
+                body.push(Item::Ins(Instr::Un(UnOp::Inc, Opnd::R16(R_SI))));
+            }
+            body.push(b::label("done_"));
+            v.push(Program { data: vec![], code: vec![b::proc("rec", body), b::label("start"), b::mov(b::r16("cx"), b::imm(depth)), b::call("rec"), pf(), b::print(PrintKind::Reg)] });
+        }
+    }
+    // tail recursion ending in an explicit ret, and a jump onto itself that is left through a loop count
+    v.push(Program {
+        data: vec![],
+        code: vec![
+            b::proc("rec", vec![Item::Ins(Instr::Un(UnOp::Dec, Opnd::R16(R_CX))), b::jmp("jcxz", "done_"), b::call("rec"), Item::Ins(Instr::Zero(ZeroOp::Ret)), b::label("done_"), Item::Ins(Instr::Un(UnOp::Inc, Opnd::R16(R_DX)))]),
+            b::label("start"),
+            b::mov(b::r16("cx"), b::imm(4)),
+            b::call("rec"),
+            b::mov(b::r16("cx"), b::imm(3)),
+            b::label("wait_"),
+            b::jmp("loop", "wait_"),
+            b::print(PrintKind::Reg),
+        ],
+    });
+    // a procedure and a label that share their name (separate name spaces): forward and backward jumps
+    v.push(Program {
+        data: vec![],
+        code: vec![
+            b::proc("fin", vec![Item::Ins(Instr::Un(UnOp::Inc, Opnd::R16(R_DX)))]),
+            b::label("start"),
+            stc(),
+            b::jmp("jc", "fin"),
+            b::mov(b::r16("si"), b::imm(0x0BAD)),
+            b::label("fin"),
+            b::call("fin"),
+            clc(),
+            b::jmp("jc", "fin"),
+            b::print(PrintKind::Reg),
+        ],
+    });
     // label before a procedure, jumped over / into with a way out
     v.push(Program {
         data: vec![],
@@ -441,6 +483,32 @@ fn large_programs() -> Vec<(String, Program)> {
         }
         v.push(("300 procedures (call depth 300) and 300 labels".into(), Program { data: vec![], code }));
     }
+    // recursion deeper than 2^15 and 2^16 pending calls: rec nests CX times, at the bottom two more calls
+    for depth in [32767i32, 32768, 32769, 65535, 65536, 65537] {
+        let code = vec![
+            b::proc("leaf", vec![Item::Ins(Instr::Un(UnOp::Inc, Opnd::R16(R_BX)))]),
+            b::proc("extra", vec![b::call("leaf"), Item::Ins(Instr::Un(UnOp::Inc, Opnd::R16(R_BX)))]),
+            b::proc(
+                "rec",
+                vec![
+                    Item::Ins(Instr::Un(UnOp::Inc, Opnd::R16(R_DX))),
+                    Item::Ins(Instr::Un(UnOp::Dec, Opnd::R16(R_CX))),
+                    b::jmp("jcxz", "bottom_"),
+                    b::call("rec"),
+                    Item::Ins(Instr::Un(UnOp::Inc, Opnd::R16(R_SI))),
+                    b::jmp("jmp", "done_"),
+                    b::label("bottom_"),
+                    b::call("extra"),
+                    b::label("done_"),
+                ],
+            ),
+            b::label("start"),
+            b::mov(b::r16("cx"), b::imm(depth - 2)),
+            b::call("rec"),
+            b::mov(b::r16("di"), b::imm(0x600D)),
+        ];
+        v.push((format!("recursion {} deep", depth), Program { data: vec![], code }));
+    }
     // a loop whose body crosses index 2^16, and a procedure defined beyond it
     {
         let mut code = vec![b::label("start"), b::mov(b::r16("cx"), b::imm(2)), b::jmp("jmp", "again")];
@@ -511,13 +579,13 @@ pub fn run(tier: &Tier) -> i32 {
     }
     let large = large_programs();
     large.par_iter().for_each(|(name, p)| {
-        check_program_h(rep, c, &st, p, &mb, false, 200_000);
+        check_program_h(rep, c, &st, p, &mb, false, 600_000);
         c.outcome(&format!("large: {}", name));
     });
     c.states.fetch_add(st.programs.load(Ordering::Relaxed), Ordering::Relaxed);
     let mut cov = Coverage::default();
     cov.exhaustive = true;
-    cov.rule = format!("all sequences of at most {} items over a {}-item alphabet (stc, clc, cmc, labels a/b, the label start at every position, jmp/jc/jnc/loop to a/b, mov cx, call f/g, hlt, print flags, a macro use, nop, six procedure definitions incl. explicit ret + dead code, nested call, a local loop, a body ending in an unconditional jump to a label at the closing brace, a body that emits nothing) that are well formed (in the quick tier the macro use only in sequences below the maximum length; labels and procedures defined once, targets defined, procedures defined before their call); each rendered to source, assembled by the real Preprocessor and run by a replica of the driver loop around the real Interpreter; the complete executed trace, the halt reason and the final registers are compared with a reference interpreter working on the AST. All programs with at most {} items also run through the real CLI binary and its stdout is matched against the reference event list. Plus 7 large programs (one with 300 procedures nested to call depth 300 and 300 labels; six) whose calls, returns, loop bodies, labels and procedures lie at emitted-instruction indices 65534..70000 (an index held in 16 bits wraps there). Diverging programs (reference step horizon 2000) and programs that fall into a procedure are discarded and counted. transitions = executed instructions; states = programs", k, alpha.len(), kcli);
+    cov.rule = format!("all sequences of at most {} items over a {}-item alphabet (stc, clc, cmc, labels a/b, the label start at every position, jmp/jc/jnc/loop to a/b, mov cx, call f/g, hlt, print flags, a macro use, nop, six procedure definitions incl. explicit ret + dead code, nested call, a local loop, a body ending in an unconditional jump to a label at the closing brace, a body that emits nothing) that are well formed (in the quick tier the macro use only in sequences below the maximum length; labels and procedures defined once, targets defined, procedures defined before their call); each rendered to source, assembled by the real Preprocessor and run by a replica of the driver loop around the real Interpreter; the complete executed trace, the halt reason and the final registers are compared with a reference interpreter working on the AST. All programs with at most {} items also run through the real CLI binary and its stdout is matched against the reference event list. Plus 13 large programs (one with 300 procedures nested to call depth 300 and 300 labels; six with recursion 32767..65537 deep; six) whose calls, returns, loop bodies, labels and procedures lie at emitted-instruction indices 65534..70000 (an index held in 16 bits wraps there). Diverging programs (reference step horizon 2000) and programs that fall into a procedure are discarded and counted. transitions = executed instructions; states = programs", k, alpha.len(), kcli);
     cov.bounds = json!({"max_items": k, "alphabet": alpha.len(), "cli_max_items": kcli, "programs": st.programs.load(Ordering::Relaxed), "discarded_diverging": st.diverging.load(Ordering::Relaxed), "discarded_fall_into_procedure": st.ret_empty.load(Ordering::Relaxed), "tier": tier.name()});
     cov.assumptions = common_assumptions();
     cov.assumptions.push("NOP may assemble to zero or one instruction; traces are compared with NOPs removed".into());
